@@ -75,6 +75,41 @@ func doCache(spec string) (out string) {
 	return strings.Join(parts, ";")
 }
 
+// doCustomCache: a client-installed RegexpCache (the variable is exported for that) must be the one
+// and only source of compiled patterns, whatever their length: its loader prepends (?i)
+func doCustomCache(n int) (out string) {
+	defer func() {
+		if r := recover(); r != nil {
+			out = classify(r)
+		}
+	}()
+	saved := xpath.RegexpCache
+	defer func() { xpath.RegexpCache = saved }()
+	loads := 0
+	xpath.RegexpCache = xpath.NewLoadingCache(func(key interface{}) (interface{}, error) {
+		loads++
+		return regexp.Compile("(?i)" + key.(string))
+	}, 4)
+	pat := "hello|" + strings.Repeat("x", n)
+	d := &docEntry{root: doc.Parse(`a("HELLO")`)}
+	ctx := doc.Ref{N: d.root, Attr: -1}
+	e, err := xpath.Compile("matches(a, '" + pat + "')")
+	if err != nil {
+		return "E:mismatch:customcache-compile:" + doc.Esc(err.Error())
+	}
+	if got := doEvaluate(e, d, ctx); got != "B:true" {
+		return fmt.Sprintf("E:mismatch:customcache-matches:len=%d:%s|B:true", len(pat), got)
+	}
+	e2, _ := xpath.Compile("replace(a, string('" + pat + "'), '-')")
+	if got := doEvaluate(e2, d, ctx); got != "S:-" {
+		return fmt.Sprintf("E:mismatch:customcache-replace:len=%d:%s|S:-", len(pat), got)
+	}
+	if loads == 0 {
+		return "E:mismatch:customcache-loader-never-ran"
+	}
+	return "ok:customcache"
+}
+
 // doRegex evaluates matches()/replace() through the engine and directly with
 // Go's regexp: "kind\x00s\x00p[\x00r]"
 func doRegex(spec string) (out string) {
@@ -83,6 +118,10 @@ func doRegex(spec string) (out string) {
 			out = classify(r)
 		}
 	}()
+	if strings.HasPrefix(spec, "customcache\x00") {
+		n, _ := strconv.Atoi(spec[len("customcache\x00"):])
+		return doCustomCache(n)
+	}
 	f := strings.Split(spec, "\x00")
 	quote := func(s string) string {
 		if strings.Contains(s, "'") {
@@ -210,6 +249,9 @@ func genC16(o *cw) {
 		o.c("regex", nil, "/", "-", "replace\x00"+s+"\x00"+p+"\x00"+t, "", "replace")
 	}
 	emitRegexDocs(o, 150*o.tier)
+	for _, n := range []int{1, 100, 1000, 1018, 1019, 1020, 1024, 2000, 5000, 70000} {
+		o.c("regex", nil, "/", "-", fmt.Sprintf("customcache\x00%d", n), "", "custom-cache-long-pattern")
+	}
 	// matches() first, then replace() with the same pattern: the cached regexp must not be altered
 	for _, p := range []string{"a|ab", "xa*?", "(fo|foo)(b?)", "a*?b", "(a|ab)(c|bcd)"} {
 		for _, s := range []string{"abcd", "xaab", "foob", "aab", "abcd"} {
@@ -309,6 +351,14 @@ func doRegexDoc(spec string) (out string) {
 	// (b) the same compiled expression from every node as context node, twice
 	m, _ := xpath.Compile("matches(@v, string(@p))")
 	rp, _ := xpath.Compile("replace(@v, string(@p), 'X')")
+	var rpt []*xpath.Expr
+	for _, tm := range []string{"<$10|$11>", "[$1$2]", "$12-$0", "$9$10x"} {
+		e2, err := xpath.Compile("replace(@v, string(@p), '" + tm + "')")
+		if err != nil {
+			return "E:mismatch:compile:" + doc.Esc(err.Error())
+		}
+		rpt = append(rpt, e2)
+	}
 	for round := 0; round < 2; round++ {
 		for i, it := range items {
 			ctx := doc.Ref{N: top.Children[i], Attr: -1}
@@ -323,6 +373,13 @@ func doRegexDoc(spec string) (out string) {
 			if got := doEvaluate(rp, d, ctx); got != wr {
 				return fmt.Sprintf("E:mismatch:regexdoc-replace:%d:%s|%s", i, got, wr)
 			}
+			// a LITERAL template with one- and two-digit references, the pattern known only at run time
+			for ti, tm := range []string{"<$10|$11>", "[$1$2]", "$12-$0", "$9$10x"} {
+				wt := "S:" + escNoTilde(xpathReplace(regexp.MustCompile(it.p), it.v, tm))
+				if got := doEvaluate(rpt[ti], d, ctx); got != wt {
+					return fmt.Sprintf("E:mismatch:regexdoc-replace-template:%d:%s:%s|%s", i, doc.Esc(tm), got, wt)
+				}
+			}
 		}
 	}
 	return fmt.Sprintf("ok:%d", len(want))
@@ -330,8 +387,9 @@ func doRegexDoc(spec string) (out string) {
 
 // emitRegexDocs adds regexdoc cases to a generator
 func emitRegexDocs(o *cw, n int) {
-	pats := []string{"a", "b+", "^a", "c$", "[0-9]+", "a|ab", "xa*?", "(fo|foo)(b?)", "^$", ".", "\\d\\d", "a.c", "(?i)abc", "b*"}
-	subj := []string{"", "a", "ab", "abc", "aab", "bbb", "xx", "a1b22", "ABC", "foob", "xaa", "cab"}
+	pats := []string{"a", "b+", "^a", "c$", "[0-9]+", "a|ab", "xa*?", "(fo|foo)(b?)", "^$", ".", "\\d\\d", "a.c", "(?i)abc", "b*",
+		"(a)(b)(c)(d)(e)(f)(g)(h)(i)(j)(k)", "(a)(b)(c)(d)(e)(f)(g)(h)(i)(j)(k)(l)(m)", "(.)(.)(.)(.)(.)(.)(.)(.)(.)(.)", "(x)?(a)(b)"}
+	subj := []string{"", "a", "ab", "abc", "aab", "bbb", "xx", "a1b22", "ABC", "foob", "xaa", "cab", "abcdefghijklm", "xabcdefghijkz", "0123456789ab"}
 	for i := 0; i < n; i++ {
 		k := 3 + o.r.Intn(6)
 		var parts []string
